@@ -278,10 +278,20 @@ pub fn generate(seed: u64, gp: &GenParams) -> Scenario {
     // Ephemeral becomes required late (when S changes) after M was already skipped
     let motif_chain = 1 + r.below(3);
     let motif_core = motif_chain + 3;
+    // size class: one scenario in twenty is a medium-sized graph (up to three times the usual
+    // bound), so that several motifs can interact in one evaluation
+    let max_jobs = {
+        let mut rs = root.fork("sizeclass");
+        if rs.chance(1, 20) {
+            (gp.max_jobs * 3).min(26)
+        } else {
+            gp.max_jobs
+        }
+    };
     let n_defs = match shape {
-        0 => 1 + r.below(gp.max_jobs),
-        3 => motif_core + r.below(gp.max_jobs.saturating_sub(motif_core - 1).max(1)),
-        _ => 3 + r.below(gp.max_jobs.saturating_sub(2).max(1)),
+        0 => 1 + r.below(max_jobs),
+        3 => motif_core + r.below(max_jobs.saturating_sub(motif_core - 1).max(1)),
+        _ => 3 + r.below(max_jobs.saturating_sub(2).max(1)),
     };
     let layer_w = 2 + r.below(2);
     let mut defs = Vec::new();
